@@ -19,7 +19,6 @@ from ..replay import Divergence, innermost_ioflo_frame
 
 SPEC_DIR = env.SPECS + "/aid"
 LEMMAS = ["HasArea", "IsSimple", "RaysMiss", "RaysAgree", "Pick", "Trichotomy", "Duality", "WindZero", "Reversal", "Similarity"]
-MAX_DIVS = 4      # reported per (function, flavour)
 NOT_SIMPLE = [[(0, 0), (2, 2), (2, 0), (0, 2)], [(0, 0), (4, 0), (2, 0), (2, 3)], [(0, 0), (3, 0), (3, 3), (0, 0), (0, 3)],
               [(0, 0), (4, 0), (4, 2), (1, 0), (0, 2)], [(0, 0), (2, 0), (4, 0)]]
 
@@ -182,17 +181,19 @@ def _replay_rows(rows, flavour_ix=None):
     stats = {"rows": 0, "points": 0, "on": 0, "vertex": 0, "inside": 0, "ccw_in": 0, "cw_in": 0, "covers_box": 0, "maxv": 0}
 
     def bad(fn, kind, vs, p, got, exp, exc=None):
+        # one divergence per (function, flavour): the signature stays the same whichever point shows it first
         k = (fn, kind)
         seen[k] = seen.get(k, 0) + 1
-        if seen[k] > MAX_DIVS:
+        if seen[k] > 1:
             return
+        call = "%s(p=%r, vs=%r)" % (fn, p, vs)
         if exc is not None:
             divs.append(dict(kind="exception", action=fn, where=innermost_ioflo_frame(exc.__traceback__),
-                             detail="%s(%r, %r) raised %s: %s" % (fn, p, vs, type(exc).__name__, exc), expected=repr(exp), actual=repr(exc)))
+                             detail="%s raised with %s arguments" % (type(exc).__name__, kind),
+                             expected=repr(exp), actual="%s raised %r" % (call, exc)))
         else:
-            divs.append(dict(kind="table-mismatch", action=fn, where=kind,
-                             detail="%s(p=%r, vs=%r) returned %r, exact geometry says %r" % (fn, p, vs, got, exp),
-                             expected=repr(exp), actual=repr(got)))
+            divs.append(dict(kind="table-mismatch", action=fn, where=kind, detail="result differs from exact geometry",
+                             expected=repr(exp), actual="%s returned %r" % (call, got)))
 
     for row in rows:
         vs0 = [tuple(v) for v in row["vs"]]
@@ -267,7 +268,7 @@ def _replay_file(job):
     return len(rows), evals, divs, stats, sample
 
 
-def _model(ctx, name, cfg, shards, cases=None):
+def _model(ctx, name, cfg, shards, lens, cases=None):
     """one TLC run; -> list of table files (one per shard) or None when a lemma failed in the model"""
     d = env.subdir("c44")
     prefix = os.path.join(d, name)
@@ -284,7 +285,7 @@ def _model(ctx, name, cfg, shards, cases=None):
         ctx.diverge(Divergence("C44", "model", res.error_name or res.error, "Polygon/" + name,
                                "lemma violated in the specification itself", steps=[{"action": a, "state": s} for a, s in res.trace]))
         return None
-    files = ["%s-%d.json" % (prefix, k) for k in shards]
+    files = ["%s-%d-%d.json" % (prefix, k, n) for k in shards for n in lens]
     missing = [f for f in files if not os.path.exists(f)]
     if missing:
         raise tlc.TlcError("no table written for %s" % missing[:3])
@@ -300,20 +301,20 @@ def run_c44(ctx):
     ncpu = env.NCPU
     groups = {}      # name -> (files, flavour indexes)
     # -- complete 3x3 grid, 3..5 vertices, with the costly lemmas (reversal, rotation, similarity)
-    nsh = 4 * ncpu
-    groups["g3"] = (_model(ctx, "g3", _cfg("grid", 3, 3, 5, nsh, deep=True), range(nsh)), None)
+    nsh = 2 * ncpu
+    groups["g3"] = (_model(ctx, "g3", _cfg("grid", 3, 3, 5, nsh, deep=True), range(nsh), (3, 4, 5)), None)
     # -- 4x4 grid, 3..5 vertices: complete (thorough) or a seeded sample of the (first, second vertex) classes (quick)
     if ctx.quick:
         nsh4 = 96
-        only = sorted(rng.sample(range(nsh4), 4))
+        only = sorted(rng.sample(range(nsh4), 3))
         grid4 = None
     else:
-        nsh4 = 8 * ncpu
+        nsh4 = 4 * ncpu
         only = list(range(nsh4))
         grid4 = _count_simple(4, 3, 5)
-    groups["g4"] = (_model(ctx, "g4", _cfg("grid", 4, 3, 5, nsh4, only), only), "rotate")
+    groups["g4"] = (_model(ctx, "g4", _cfg("grid", 4, 3, 5, nsh4, only), only, (3, 4, 5)), "rotate")
     # -- random larger polygons: TLC computes the answers from the cases file
-    nsmall, nbig = ctx.pick((40, 40), (900, 900))
+    nsmall, nbig = ctx.pick((30, 30), (500, 500))
     small = _random_cases(rng, nsmall, True)
     big = _random_cases(rng, nbig, False)
     # figures that are not simple polygons (bow tie, vertex on another side, repeated vertex, overlapping sides,
@@ -321,8 +322,8 @@ def run_c44(ctx):
     for vs in NOT_SIMPLE:
         small.insert(rng.randrange(len(small)), {"vs": [list(v) for v in vs], "ps": [[0, 0], [1, 1]]})
     nshf = ctx.pick(ncpu, 4 * ncpu)
-    groups["rs"] = (_model(ctx, "rs", _cfg("file", nshards=nshf, deep=True), range(nshf), small), None)
-    groups["rb"] = (_model(ctx, "rb", _cfg("file", nshards=nshf), range(nshf), big), None)
+    groups["rs"] = (_model(ctx, "rs", _cfg("file", nshards=nshf, deep=True), range(nshf), (0,), small), None)
+    groups["rb"] = (_model(ctx, "rb", _cfg("file", nshards=nshf), range(nshf), (0,), big), None)
     jobs = []
     for name, (files, fl) in groups.items():
         for k, f in enumerate(files or []):
